@@ -17,6 +17,11 @@ ASSUMPTIONS = ["AEAD tamper detection and chunking schedules are not executed", 
 N = "libp2p_noise"
 MAXC = "const:libp2p_noise::io::framed::MAX_FRAME_LEN"
 
+SELFTEST = [
+    {"mutation": "poll_read: `self.recv_offset += n;` deleted", "caught_by": "read/recv_offset advanced exactly once between the copy and Ready(Ok(n))"},
+    {"mutation": "poll_read: `if len == self.recv_offset` -> `if len >= n`", "caught_by": "read/frame dropped only when fully consumed"},
+    {"neutral": "neutral/sec/04 (else -> early return with negated comparison); `this` -> `me`, `buf` -> `data`; `MAX_FRAME_LEN == this.send_offset`; `send_offset != 0`", "silent": True},
+]
 
 def self_fld(name):
     """predicate: expression is `self.<name>` (any receiver alias, through view conversions)"""
@@ -57,7 +62,7 @@ def check(ctx):
         S.guarded(ctx, "write", "frame sent exactly when the buffer is full", s, off_max["eq"], "send_offset == MAX_FRAME_LEN")
         e = S.peel(rn(w.site_expr(s)[2][1]))
         ctx.ob("write", "the send buffer is what is sent", self_fld("send_buffer")(e), s.loc(), V(w.site_expr(s)[2][1]))
-        cont, brk = S.call_outcome_edges(w, s)
+        cont, brk = S.call_outcome_edges(w, s, close=False)
         cont, brk = [t for _, t in cont], [t for _, t in brk]
         rz = lib.bbs(w.call_sites(r"Vec::resize$"))
         got = lib.count_range(w, cont, rz + rets, lib.bbs(resets))
@@ -69,7 +74,7 @@ def check(ctx):
     # full buffer always flushed before buffering more
     rz = w.call_sites(r"Vec::resize$")
     ctx.floor("write", "send_buffer.resize", rz, 1)
-    for _, t in off_max["eq"]:
+    for _, t in S.rel_edges(w, lambda e: self_fld("send_offset")(rn(e)), lambda e: S.is_const(e, mfl, r"MAX_FRAME_LEN$"), close=False)["eq"]:
         ctx.passes("write", "full buffer is sent before more is buffered", w, [t], lib.bbs(rz), lib.bbs(ss), "start_send on the full edge", "%s:%d" % (w.file, w.line))
     for s in rz:
         e = w.site_expr(s)
@@ -107,7 +112,8 @@ def check(ctx):
         S.guarded(ctx, "flush", "partial frame sent iff bytes are buffered", s, pending, "send_offset > 0")
     fres = [s for s in f.field_write_sites("send_offset") if S.cval(f.site_expr(s)) == 0]
     ctx.ob("flush", "floor:buffered-bytes edge", len(pending) >= 1, nontrivial=False, msg=str(sorted(pending)))
-    for _, t in pending:
+    oz = S.rel_edges(f, lambda e: self_fld("send_offset")(rnf(e)), lambda e: S.cval(e) == 0, close=False)
+    for _, t in oz["gt"] | oz["ne"]:
         ctx.passes("flush", "buffered bytes are sent before the inner flush", f, [t], lib.bbs(inner), lib.bbs(fss), "start_send precedes io.poll_flush", "%s:%d" % (f.file, f.line))
         ctx.passes("flush", "send_offset reset before the inner flush", f, [t], lib.bbs(inner), lib.bbs(fres), "send_offset = 0 after sending")
     for s in fres:
@@ -177,7 +183,7 @@ def check(ctx):
         ctx.ob("errors", "%s: snow error mapped to io::Error" % fn, ok, me[0].loc() if me else "", render(b.site_expr(me[0]))[:200] if me else "")
         if me:
             used = lib.local_uses(b, me[0].term["d"]["l"]) > 0
-            good, br = S.call_outcome_edges(b, me[0])
+            good, br = S.call_outcome_edges(b, me[0], close=False)
             br = [t for _, t in br]
             ctx.ob("errors", "%s: failure is propagated" % fn, used and len(br) == 1, me[0].loc(), "map_err(..)? — the Err edge returns the error")
             for t in br:
